@@ -54,6 +54,8 @@ func main() {
 		runMembership(r)
 	case "twins":
 		runTwins(r)
+	case "payload":
+		runPayload(r)
 	case "sscrash":
 		runSSCrash(r)
 	default:
